@@ -179,6 +179,26 @@ func asciiCodewords(t string) int {
 	return n
 }
 
+// fitsLargest: the text provably fits the largest symbol (1558 data codewords): either in plain
+// ASCII encodation, or as ONE Base 256 run over the whole text (latch + length field of 1 codeword
+// up to 249 bytes, else 2 - or the single length codeword 0 when the run ends exactly with the
+// symbol). Both are encodations every text of that length has; a correct encoder needs no more.
+func fitsLargest(t string) (bool, string) {
+	if a := asciiCodewords(t); a <= 1558 {
+		return true, fmt.Sprintf("even in plain ASCII encodation (%d codewords)", a)
+	}
+	n := len(latin1Bytes(t))
+	switch {
+	case n <= 249 && n+2 <= 1558, n+3 <= 1558:
+		return true, fmt.Sprintf("as one Base 256 run (latch + length field + %d bytes)", n)
+	case n+2 == 1558:
+		return true, "as one Base 256 run that ends with the symbol (latch + length codeword 0 + 1556 bytes = 1558 codewords)"
+	}
+	return false, ""
+}
+
+func fitsYes(t string) bool { ok, _ := fitsLargest(t); return ok }
+
 func q(s string) string { return strconv.QuoteToASCII(s) }
 
 // show quotes a text for messages; long homogeneous runs are written as "c"xN.
@@ -583,7 +603,7 @@ func evalCase(l *mc.Local, sub, t string, h hints, level int) (r result) {
 		switch {
 		case !latin:
 			l.Distinct("outcomes", "refused:non-latin1")
-		case h.none() && t != "" && asciiCodewords(t) <= 1558:
+		case h.none() && t != "" && fitsYes(t):
 			cls := errClass(err)
 			if p.avail {
 				for _, s := range p.steps {
@@ -594,7 +614,8 @@ func evalCase(l *mc.Local, sub, t string, h hints, level int) (r result) {
 				}
 			}
 			violate(l, &r, "C02/fits-but-refused/"+cls, func() string {
-				return fmt.Sprintf("EncodeHighLevel(%s) without hints returns the error %q although the text fits 144x144 even in plain ASCII encodation (%d codewords)", desc, clip(errText(err)), asciiCodewords(t))
+				_, how := fitsLargest(t)
+				return fmt.Sprintf("EncodeHighLevel(%s) without hints returns the error %q although the text fits 144x144 %s", desc, clip(errText(err)), how)
 			}, rc)
 		default:
 			l.Distinct("outcomes", "refused:"+errClass(err))
